@@ -82,6 +82,9 @@ namespace PL
          FAM( 13, fam13 )
          FAM( 14, fam14 )
          FAM( 16, fam16 )
+         FAM( 17, fam17 )
+         FAM( 18, fam18 )
+         FAM( 19, fam19 )
 #undef FAM
       }
       fprintf( stderr, "FATAL: action family %d not compiled into this unit\n", c.fam );
